@@ -1,5 +1,6 @@
 import GlyProofs.Smiles.Graft
 import GlyProofs.Smiles.TreeBalance
+import GlyProofs.Mono.LinkAtom
 /-
   C05 — Condensation mass balance. (Property theorems only.)
 -/
@@ -55,5 +56,15 @@ theorem C05_tree_rings (isMk : Atom → Bool) (hN : isMk ['N'] = false) (t : TNo
     ∃ M, sem (mergeTok t) = some M ∧ ringOpens M.evs = treeRings t ∧ M.evs.length = treeBonds t := by
   obtain ⟨M, h1, h2, _, _⟩ := tree_ok isMk hN t h
   exact ⟨M, h1, spec_rings t M h2⟩
+
+open Gly.EnumC in
+/-- **Marking a linkage position costs exactly one O (or N)** (Model of `Monomer.mark`, tied to monomer.py by the atom and element
+    observed to change in every call inside real conversions): on success exactly one atom – an oxygen or a nitrogen, never a
+    carbon – has become the marker of its kind; every other atom, every flag and every bond of the residue is what it was. Together
+    with `C05_tree_atoms` (one marker lost per linkage in the assembly) this is the water balance of a glycosidic bond. -/
+theorem C05_mark_one_atom (v : View) (x : Numbering) (pos oZ nZ : Nat) (v' : View) (h : mark v x pos oZ nZ = .ok v') :
+    ∃ r, (((v.at r).z = 8 ∧ v' = v.setZ r oZ) ∨ ((v.at r).z = 7 ∧ v' = v.setZ r nZ)) ∧
+      (∀ j, j ≠ r → v'.at j = v.at j) ∧ v'.adj = v.adj ∧ v'.atoms.length = v.atoms.length :=
+  mark_spec v x pos oZ nZ v' h
 
 end Gly.Props.C05
